@@ -43,6 +43,7 @@ type Family struct {
 	Assumptions []string
 	Outside     []string
 	Functions   []string // gengine functions the property is about (must be hit)
+	BothOrders  bool     // thorough: extract every event structure also under the newest-first thread order
 }
 
 type generator func(tier string, seed int64) (*Family, error)
@@ -208,6 +209,45 @@ func runCheck(prop, tier string, seed int64, gen generator) int {
 	}
 	close(jobs)
 	wg.Wait()
+	if tier == "thorough" && fam.BothOrders && len(infra) == 0 {
+		// second extraction under the other deterministic thread order
+		cfg2 := cfg
+		cfg2.NewestFirst = true
+		ex2 := &interp.Explorer{Prog: prog, Cfg: cfg2}
+		jobs2 := make(chan Instance)
+		var wg2 sync.WaitGroup
+		for w := 0; w < workers; w++ {
+			wg2.Add(1)
+			go func() {
+				defer wg2.Done()
+				wk, err := ex2.NewWorker()
+				if err != nil {
+					for range jobs2 {
+					}
+					return
+				}
+				defer wk.Close()
+				for in := range jobs2 {
+					fn := hpkg.Func(in.Func)
+					if fn == nil {
+						continue
+					}
+					rep := wk.Explore(fn)
+					in2 := in
+					in2.Desc += " (newest-first thread order)"
+					in2.Nondet = true
+					mu.Lock()
+					results = append(results, instResult{in2, rep})
+					mu.Unlock()
+				}
+			}()
+		}
+		for _, in := range fam.Instances {
+			jobs2 <- in
+		}
+		close(jobs2)
+		wg2.Wait()
+	}
 	sort.Slice(results, func(a, b int) bool { return results[a].inst.Func < results[b].inst.Func })
 
 	return conclude(prop, tier, seed, fam, results, infra, scratch, bridge, loadS, t0)
